@@ -65,6 +65,72 @@ Proof.
   destruct (script_run md fixed bs n f1 r) as [f2 gs]. reflexivity.
 Qed.
 
+(* examine_t answers TOk only when no directory it looked at holds a torn marker: then it is the plain examine's answer
+   (whatever the tree records under a torn marker: no well-formedness needed) *)
+Lemma examine_plates_t_ok tfix torn it : forall pl st idx st',
+  examine_plates_t tfix torn it st idx pl = TOk st' -> examine_plates it st idx pl = XOk st'.
+Proof.
+  induction pl as [|[pidx d] r IH]; intros st idx st'; cbn [examine_plates_t examine_plates].
+  - intros E; injection E as <-; reflexivity.
+  - destruct (is_torn torn (it, pidx)); [destruct tfix; discriminate|].
+    destruct (f_meta d) as [m|]; [|discriminate]. destruct (negb (pidx =? idx)); [discriminate|apply IH].
+Qed.
+
+Lemma examine_iters_t_ok tfix torn fixed : forall l st st',
+  examine_iters_t tfix torn fixed st l = TOk st' -> examine_iters fixed st l = XOk st'.
+Proof.
+  induction l as [|itd r IH]; intros st st'; cbn [examine_iters_t examine_iters].
+  - intros E; injection E as <-; reflexivity.
+  - unfold examine_iter_t, examine_iter.
+    destruct (examine_plates_t tfix torn (fst itd) _ 0 (sort_dirs (snd itd))) as [st1|w s|w] eqn:E1; cbn [tbind]; try discriminate.
+    rewrite (examine_plates_t_ok _ _ _ _ _ _ _ E1). cbn [xbind]. apply IH.
+Qed.
+
+Theorem examine_t_ok tfix fixed bs tf a :
+  examine_t tfix fixed bs tf = TOk a -> examine fixed bs (fst tf) = XOk a.
+Proof.
+  unfold examine_t, examine.
+  destruct (examine_iters_t tfix (snd tf) fixed exst0 (sort_dirs (fst tf))) as [st|w s|w] eqn:E1; cbn [tbind]; try discriminate.
+  rewrite (examine_iters_t_ok _ _ _ _ _ _ E1). cbn [xbind].
+  destruct (x_meta st); [destruct (x_plate st >=? bs - 1)|]; intros E; injection E as <-; reflexivity.
+Qed.
+
+(* under the repair examine_t either answers as the plain examine on the tree component, or names a directory holding a torn
+   marker as "invalid structure" (whatever the tree records under a torn marker: no well-formedness needed) *)
+Definition torn_named {A} (torn : torn_set) (r : tres A) : Prop := exists s, r = TNamed 1 s /\ is_torn torn s = true.
+
+Lemma examine_plates_t_cases torn it : forall pl st idx,
+  examine_plates_t true torn it st idx pl = tres_of_xres (examine_plates it st idx pl)
+  \/ torn_named torn (examine_plates_t true torn it st idx pl).
+Proof.
+  induction pl as [|[pidx d] r IH]; intros st idx; cbn [examine_plates_t examine_plates]; [left; reflexivity|].
+  destruct (is_torn torn (it, pidx)) eqn:Et; [right; exists (it, pidx); auto|].
+  destruct (f_meta d) as [m|]; [|left; reflexivity].
+  destruct (negb (pidx =? idx)); [left; reflexivity|apply IH].
+Qed.
+
+Lemma examine_iters_t_cases torn fixed : forall l st,
+  examine_iters_t true torn fixed st l = tres_of_xres (examine_iters fixed st l)
+  \/ torn_named torn (examine_iters_t true torn fixed st l).
+Proof.
+  induction l as [|itd r IH]; intros st; cbn [examine_iters_t examine_iters]; [left; reflexivity|].
+  unfold examine_iter_t, examine_iter.
+  match goal with |- context [examine_plates_t true torn ?i ?s0 0 ?p] =>
+    destruct (examine_plates_t_cases torn i p s0 0) as [E|(s & E & Ht)]; rewrite E end.
+  - destruct (examine_plates _ _ _ _) as [st'|w s]; cbn [tres_of_xres tbind xbind]; [apply IH|left; reflexivity].
+  - cbn [tbind]. right. exists s. auto.
+Qed.
+
+Theorem examine_t_repaired_cases fixed bs tf :
+  examine_t true fixed bs tf = tres_of_xres (examine fixed bs (fst tf)) \/ torn_named (snd tf) (examine_t true fixed bs tf).
+Proof.
+  unfold examine_t, examine.
+  destruct (examine_iters_t_cases (snd tf) fixed (sort_dirs (fst tf)) exst0) as [E|(s & E & Ht)]; rewrite E.
+  - left. destruct (examine_iters _ _ _) as [st|w s]; cbn [tres_of_xres tbind xbind]; [|reflexivity].
+    destruct (x_meta st); [|reflexivity]. destruct (x_plate st >=? bs - 1); reflexivity.
+  - right. exists s. auto.
+Qed.
+
 (* ---------- a raising examine strands the script ---------- *)
 Theorem torn_stuck tfix md fixed bs n tf w :
   examine_t tfix fixed bs tf = TRaised w ->
